@@ -141,5 +141,53 @@ def run(P, tier="quick"):
         R.violated(Finding("R03", {"C13"}, FILE, "vnaproperty_vdelete", "success-implies-delete",
                            "vnaproperty_vdelete can return 0 (line %d) without having called map_delete, list_delete or "
                            "vnaproperty_free: the addressed entry stays in its collection" % n.line, n.line, trace))
+    # WRAPPER-ANCHOR: the vnacal_property_* wrappers hand the library the address of the root pointer stored in
+    # the calibration (what _get_property_root returned); the address of a local copy would lose a new root
+    from ..canon import Canon
+    MUT = {"vnaproperty_vset": 0, "vnaproperty_vdelete": 0, "vnaproperty_vset_subtree": 0}
+    READ = {"vnaproperty_vtype": 0, "vnaproperty_vcount": 0, "vnaproperty_vkeys": 0, "vnaproperty_vget": 0,
+            "vnaproperty_vget_subtree": 0}
+    nw = 0
+    for f in P.by_file.get("vnacal_property.c", []):
+        CN = Canon(f)
+        for c in f.calls():
+            if c.callee in MUT or c.callee in READ:
+                nw += 1
+                a0 = CN.path(c.args()[0])
+                want = "_get_property_root($0,$1)" if c.callee in MUT else "*_get_property_root($0,$1)"
+                key = "R03|vnacal_property.c|%s|anchor:%s" % (f.name, c.callee)
+                if a0 == want:
+                    R.ok(key, {"C13"})
+                else:
+                    R.violated(Finding("R03", {"C13"}, "vnacal_property.c", f.name, "anchor:" + c.callee,
+                                       "%s is called with %s instead of %s: changes to the root (creation or replacement) "
+                                       "do not reach the calibration's own root pointer" % (c.callee, a0, want), c.line))
+    if nw < 8:
+        raise AnalysisBroken("vnacal_property.c: only %d wrapper calls found" % nw)
+    # IDCHAR-CLASSES: quote_key must classify the first and the following characters with the scanner's own macros
+    qk = P.need_func("vnaproperty_quote_key", FILE)
+    sc = P.need_func("scan", FILE)
+
+    def id_macros(fn):
+        first, rest = set(), set()
+        for n in fn.walk():
+            for m in n.macros:
+                if m in ("ISIDCHAR1", "ISIDCHAR") and n.get("marg"):
+                    # the macro argument: key[0] / key[i] / scnp->scn_cur
+                    if n.k == "ArraySubscriptExpr":
+                        idx = n.kids[1].strip()
+                        (first if idx.cv == 0 else rest).add(m)
+        return first, rest
+    qf, qr = id_macros(qk)
+    sm = {m for n in sc.walk() for m in n.macros if m in ("ISIDCHAR1", "ISIDCHAR")}
+    if sm != {"ISIDCHAR1", "ISIDCHAR"}:
+        raise AnalysisBroken("scan(): identifier character macros not found")
+    if qf == {"ISIDCHAR1"} and qr == {"ISIDCHAR"}:
+        R.ok("R03|%s|vnaproperty_quote_key|idchar-classes" % FILE, {"C13"})
+    else:
+        R.violated(Finding("R03", {"C13"}, FILE, "vnaproperty_quote_key", "idchar-classes",
+                           "quote_key tests key[0] with %s and key[i>0] with %s; the scanner starts identifiers with ISIDCHAR1 and "
+                           "continues them with ISIDCHAR, so keys are quoted differently from how they are scanned" %
+                           (sorted(qf) or "nothing", sorted(qr) or "nothing"), qk.line))
     R.check_floor()
     return R
